@@ -1,9 +1,9 @@
 SPECIFICATION GenSpec
 CONSTANTS
   Replicas = {"r1", "r2", "r3"}
-  MaxChanges = 6
-  MaxSnaps = 3
-  MaxInFlight = 4
+  MaxChanges = 3
+  MaxSnaps = 0
+  MaxInFlight = 6
   MaxInFlight2 = 8
   Sync1 = TRUE
   Guard = FALSE
